@@ -16,17 +16,88 @@ RULE = ("Hypothesis-drawn retardances and orientation angles in [-50, 50] rad (p
         "form R(-t) diag(1, x) R(t) with the harness' own rotation matrix, M(J1 J2) = M(J1) M(J2), M M^T = I and M00 = 1 for "
         "unitary J, M_ij = tr(s_i J s_j J^H)/2 up to the handedness (S3 sign) convention, sum c_k s_k = J, element-by-element "
         "loops for everything batched, per-component propagation for the adapter.  Non-trivial = generic (non-special) angle / "
-        "retardance, or a batch with more than one element, or a non-square propagated array.")
+        "retardance, or a batch with more than one element, or a non-square propagated array.  Hardening dimensions drawn for every "
+        "clause: angles / retardances at the far ends (1e-300 .. 1e5 rad), parameters as Python floats, Python ints, numpy scalars and "
+        "0-d arrays, positional and keyword, shape= as list or tuple; theta / retardance arrays of float64, float32 and integer dtype in "
+        "C / Fortran / transposed / strided layouts, with special values (0, pi/2, pi, 2pi) planted among generic ones; Jones batches "
+        "of complex128 / complex64 / float64 / int64 dtype, any layout, amplitudes 1e-150 .. 1e150 (1e-300 .. 1e300 for the linear "
+        "Pauli map), with identity / zero / singular / Pauli matrices planted among generic ones; the library switched to 32-bit "
+        "precision (checked at float32 tolerance) or used at 32 bits before the checked 64-bit call; polarised fields as "
+        "complex128 / complex64 / real arrays with the Jones axes last or as a view of a components-first array, per-axis different "
+        "shift=(sx, sy), a non-symmetric tf= array and Q=1 through the adapter.  Every array (and shape list) handed over is compared "
+        "with a copy taken before the call (bucket ...:argument-modified); results are kept and re-checked after later calls with other "
+        "parameters (...:result-overwritten) and constructors are called again after their previous result was edited in place "
+        "(...:aliased-state).")
 ASSUMPTIONS = ["numpy linear algebra (matmul, QR, kron, trace) is correct",
                "the rotation matrix convention is [[cos, sin], [-sin, cos]] (pinned by the repository's own test at 45 deg)",
                "either handedness convention (sign of S3) is accepted for the Jones-to-Mueller map",
-               "theta passed to vector_vortex_retarder is a floating-point ndarray, as documented"]
+               "theta passed to vector_vortex_retarder is an ndarray, as documented (float64, float32 or integer valued)",
+               "with prysm.conf.config.precision = 32, or float32 / complex64 inputs, the laws are asserted at float32 tolerance (1e-4)"]
 
 TWO_PI = 2 * math.pi
-ANG = st.one_of(U.nice_float(-50.0, 50.0), U.nice_float(-7.0, 7.0), U.nice_float(0.1, 6.0), U.nice_float(-50.0, 50.0), st.sampled_from([0.0, math.pi / 2, math.pi, TWO_PI, math.pi / 4, -math.pi / 2]))
+FAR = [1e-300, -1e-300, 1e-16, 1e-8, -1e-8, 1e5, -1e5, 12345.678, 1.0, 2.0, -3.0, 100.0]
+ANG = st.one_of(U.nice_float(-50.0, 50.0), U.nice_float(-7.0, 7.0), U.nice_float(0.1, 6.0), U.nice_float(-50.0, 50.0),
+                st.sampled_from([0.0, math.pi / 2, math.pi, TWO_PI, math.pi / 4, -math.pi / 2]), st.sampled_from(FAR))
 BSHAPE = st.one_of(st.just([]), st.lists(st.integers(1, 4), min_size=1, max_size=3))
 SHAPE_OR_NONE = st.one_of(st.none(), st.lists(st.integers(1, 4), min_size=1, max_size=3))
 SPECIAL = (0.0, math.pi / 2, math.pi, TWO_PI, math.pi / 4, -math.pi / 2)
+HOW = st.sampled_from(['py', 'py', 'py', 'np', '0d', 'int'])
+PREC = st.sampled_from([64, 64, 64, 64, 32])
+F32TOL = 1e-4    # observed <= 1e-6 on the unchanged code at 32 bits
+
+
+def _arg(v, how):
+    """the number v as the drawn Python / numpy type"""
+    if v is None:
+        return None
+    if how == 'np':
+        return np.float64(v)
+    if how == '0d':
+        return np.array(float(v))
+    if how == 'int' and float(v) == int(v):
+        return int(v)
+    return v
+
+
+def _shape_arg(shape, as_tuple):
+    if shape is None:
+        return None
+    return tuple(shape) if as_tuple else list(shape)
+
+
+def _tol(tol, prec):
+    return tol if prec == 64 else max(tol, F32TOL)
+
+
+def _unchanged(ctx, arr, keep, bucket, what):
+    a, k = np.asarray(arr), np.asarray(keep)
+    same = a.shape == k.shape and a.dtype == k.dtype and bool(np.all((a == k) | ((a != a) & (k != k))))
+    ctx.require(same, bucket + ':argument-modified', '%s was modified by the call' % what)
+
+
+def _plant(a, seed, salt, values, p=0.3):
+    """overwrite a random ~30% of the entries of the float array a with special values"""
+    if a.size == 0:
+        return a
+    r = U.rng_of(seed, salt)
+    m = r.uniform(0, 1, a.shape) < p
+    v = np.asarray(values, dtype=float)[r.integers(0, len(values), a.shape)]
+    return np.where(m, v, a)
+
+
+def _prec_ctx(case, ctx, body):
+    """history: optionally use the library at 32 bits first; then run the body at the drawn precision"""
+    from prysm.x import polarization as pol
+    if case.get('pre32', False):
+        with U.precision(32):
+            ctx.call(pol.linear_retarder, 0.3, 0.2, [2])
+            ctx.call(pol.jones_rotation_matrix, 0.7)
+            ctx.call(pol.vector_vortex_retarder, 2, np.array([[0.1, 0.2]]), 1.0, 0.3)
+            ctx.call(pol.jones_to_mueller, np.eye(2, dtype=np.complex64))
+            ctx.call(pol.pauli_spin_matrix, 3, [2])
+    with U.precision(case.get('prec', 64)):
+        body(case, ctx)
+
 
 SIG = [np.eye(2, dtype=complex), np.array([[1, 0], [0, -1]], dtype=complex), np.array([[0, 1], [1, 0]], dtype=complex),
        np.array([[0, -1j], [1j, 0]], dtype=complex)]
@@ -83,72 +154,118 @@ def _check_unitary(ctx, J, bucket, what, tol=1e-12):
     U.check_close(e, np.broadcast_to(I2, e.shape), tol, bucket, what + ': J^H J != I')
 
 
-def _check_mueller_orthogonal(ctx, J, bucket, what):
+def _check_mueller_orthogonal(ctx, J, bucket, what, prec=64):
     from prysm.x import polarization as pol
+    keep = np.array(J, copy=True)
     M = np.asarray(ctx.call(pol.jones_to_mueller, J))
+    _unchanged(ctx, J, keep, 'jones_to_mueller', 'the Jones matrix (%s)' % what)
     U.check_shape(M, J.shape[:-2] + (4, 4), bucket, what)
     e = M @ np.swapaxes(M, -1, -2)
-    U.check_close(e, np.broadcast_to(I4, e.shape), 1e-11, bucket, what + ': M M^T != I for unitary J')
-    U.check_close(M[..., 0, 0], np.ones(M.shape[:-2]), 1e-12, bucket + ':M00', what + ': M00 != 1 for unitary J')
+    U.check_close(e, np.broadcast_to(I4, e.shape), _tol(1e-11, prec), bucket, what + ': M M^T != I for unitary J')
+    U.check_close(M[..., 0, 0], np.ones(M.shape[:-2]), _tol(1e-12, prec), bucket + ':M00', what + ': M00 != 1 for unitary J')
 
 
 # ---- retarders, rotation matrix ------------------------------------------------------------------
 def strat_retarder(tier):
     return st.fixed_dictionaries({'kind': st.sampled_from(['linear', 'linear', 'hwp', 'qwp']), 'ret': ANG, 'theta': ANG,
-                                  'theta2': ANG, 'shape': SHAPE_OR_NONE, 'seed': U.seeds})
+                                  'theta2': ANG, 'shape': SHAPE_OR_NONE, 'seed': U.seeds,
+                                  'how': st.tuples(HOW, HOW).map(list), 'tuple_shape': st.booleans(), 'kwargs': st.booleans(),
+                                  'adtype': st.sampled_from(['float64', 'float64', 'float32', 'int64']), 'alayout': U.layouts,
+                                  'prec': PREC, 'pre32': st.booleans()})
 
 
 def check_retarder(case, ctx):
     """linear_retarder / HWP / QWP: unitary, == R(-t) diag(1, e^{i d}) R(t), rotation law, shape= and retardance-array batches."""
+    _prec_ctx(case, ctx, _check_retarder)
+
+
+def _check_retarder(case, ctx):
     from prysm.x import polarization as pol
     kind, d, t, t2, shape = case['kind'], case['ret'], case['theta'], case['theta2'], case['shape']
+    hd, ht = case.get('how', ['py', 'py'])
+    prec, astuple, usekw = case.get('prec', 64), case.get('tuple_shape', False), case.get('kwargs', False)
     if kind == 'hwp':
         d = math.pi
     elif kind == 'qwp':
         d = math.pi / 2
     batch = shape is not None and int(np.prod(shape)) > 1
     ctx.nt(_generic(d, t) or batch)
-    ctx.label('kind:' + kind, 'shape=None' if shape is None else 'shape:%dd' % len(shape), 'generic' if _generic(d, t) else 'special')
+    ctx.label('kind:' + kind, 'shape=None' if shape is None else 'shape:%dd' % len(shape), 'generic' if _generic(d, t) else 'special',
+              'prec:%d' % prec, 'pre32' if case.get('pre32', False) else 'no-pre32', 'ret-as:' + hd, 'theta-as:' + ht,
+              'far-angle' if max(abs(d), abs(t)) > 60 or 0 < min(abs(d), abs(t)) < 1e-7 else 'near-angle', 'kwargs' if usekw else 'positional')
+    shape_arg = _shape_arg(shape, astuple)
+    shape_keep = None if shape is None else list(shape)
 
-    def build(theta, shp):
+    def build(theta, shp, hows=('py', 'py')):
+        th, dd = _arg(theta, hows[1]), _arg(d, hows[0])
         if kind == 'linear':
-            return ctx.call(pol.linear_retarder, d, theta, shp)
+            if usekw:
+                return ctx.call(pol.linear_retarder, retardance=dd, theta=th, shape=shp)
+            return ctx.call(pol.linear_retarder, dd, th, shp)
         if kind == 'hwp':
-            return ctx.call(pol.half_wave_plate, theta, shp)
-        return ctx.call(pol.quarter_wave_plate, theta, shp)
-    what = '%s(retardance=%r, theta=%r, shape=%r)' % (kind, d, t, shape)
-    Jb = build(t, shape)
+            return ctx.call(pol.half_wave_plate, theta=th, shape=shp) if usekw else ctx.call(pol.half_wave_plate, th, shp)
+        return ctx.call(pol.quarter_wave_plate, theta=th, shape=shp) if usekw else ctx.call(pol.quarter_wave_plate, th, shp)
+    what = '%s(retardance=%r, theta=%r, shape=%r) [%s/%s, precision %d]' % (kind, d, t, shape_arg, hd, ht, prec)
+    Jb = build(t, shape_arg, (hd, ht))
+    if shape is not None:
+        ctx.require(list(shape_arg) == shape_keep, kind + ':argument-modified', 'the shape= sequence was modified: %r' % (shape_arg,))
+    Jb_keep = np.array(Jb, copy=True)
     J = _check_batch_copies(ctx, Jb, shape, kind, what)
-    _check_unitary(ctx, Jb, kind + ':unitary', what)
+    _check_unitary(ctx, Jb, kind + ':unitary', what, _tol(1e-12, prec))
     want = rot(-t) @ np.diag([1, np.exp(1j * d)]) @ rot(t)
-    U.check_close(J, want, 1e-12, kind + ':closed-form', what + ' vs R(-t) diag(1,e^{id}) R(t)')
+    U.check_close(J, want, _tol(1e-12, prec), kind + ':closed-form', what + ' vs R(-t) diag(1,e^{id}) R(t)')
     # rotation law with the library's own pieces
-    R1 = np.asarray(ctx.call(pol.jones_rotation_matrix, t))
+    R1_raw = ctx.call(pol.jones_rotation_matrix, _arg(t, ht))
+    R1 = np.array(R1_raw, copy=True)
     Rm = np.asarray(ctx.call(pol.jones_rotation_matrix, -t))
-    U.check_close(R1, rot(t), 1e-14, 'jones_rotation_matrix', 'jones_rotation_matrix(%r)' % t, atol=1e-15)
+    U.check_close(R1, rot(t), _tol(1e-14, prec), 'jones_rotation_matrix', 'jones_rotation_matrix(%r)' % t, atol=_tol(1e-15, prec))
     J0 = np.asarray(build(0, None))
-    U.check_close(J, Rm @ J0 @ R1, 1e-12, kind + ':rotation-law', what + ' vs R(-t) X(0) R(t)')
-    # group law of the rotation matrix, incl. its own shape= batching
-    R2 = np.asarray(ctx.call(pol.jones_rotation_matrix, t2, shape))
+    U.check_close(J, Rm @ J0 @ R1, _tol(1e-12, prec), kind + ':rotation-law', what + ' vs R(-t) X(0) R(t)')
+    # group law of the rotation matrix, incl. its own shape= batching (the sum t + t2 itself is rounded: allow its spacing)
+    R2 = np.asarray(ctx.call(pol.jones_rotation_matrix, t2, shape_arg))
     R2e = _check_batch_copies(ctx, R2, shape, 'jones_rotation_matrix', 'jones_rotation_matrix(%r, shape=%r)' % (t2, shape))
-    U.check_close(R1 @ R2e, rot(t + t2), 1e-12, 'jones_rotation_matrix:group', 'R(%r) R(%r) vs R(sum)' % (t, t2), atol=1e-13)
-    _check_unitary(ctx, R2, 'jones_rotation_matrix:unitary', 'jones_rotation_matrix(%r)' % t2)
-    _check_mueller_orthogonal(ctx, np.asarray(Jb), kind + ':mueller', what)
-    # spatially varying retardance (array of exactly the batch shape) == element by element
+    U.check_close(R1 @ R2e, rot(t + t2), _tol(1e-12, prec), 'jones_rotation_matrix:group', 'R(%r) R(%r) vs R(sum)' % (t, t2),
+                  atol=_tol(1e-13, prec) + 4 * float(np.spacing(abs(t) + abs(t2))))
+    _check_unitary(ctx, R2, 'jones_rotation_matrix:unitary', 'jones_rotation_matrix(%r)' % t2, _tol(1e-12, prec))
+    _check_mueller_orthogonal(ctx, np.asarray(Jb), kind + ':mueller', what, prec)
+    # the caller owns what it got: nothing built since may have changed the first element, and a result edited in place must not come back
+    U.check_equal(np.asarray(Jb), Jb_keep, kind + ':result-overwritten', what + ': the first result changed while other elements were built')
+    np.asarray(R1_raw)[...] = 7
+    np.asarray(Jb)[...] = 7
+    U.check_close(np.asarray(ctx.call(pol.jones_rotation_matrix, _arg(t, ht))), R1, 1e-14, 'jones_rotation_matrix:aliased-state',
+                  'jones_rotation_matrix(%r) again, after the previous result was overwritten by the caller' % t, atol=1e-15)
+    U.check_close(np.asarray(build(t, shape_arg, (hd, ht))), Jb_keep, 1e-14, kind + ':aliased-state', what + ' again, after the previous result was overwritten by the caller', atol=1e-15)
+    # spatially varying retardance (array of exactly the batch shape) == element by element; special retardances among generic ones
     if kind == 'linear' and shape is not None:
+        adt = np.dtype(case.get('adtype', 'float64'))
         dr = U.rng_of(case['seed'], 3).uniform(-10, 10, tuple(shape))
-        Jv = np.asarray(ctx.call(pol.linear_retarder, dr, t, shape))
+        if 'adtype' in case:
+            dr = _plant(dr, case['seed'], 13, [0.0, math.pi, TWO_PI, -math.pi, math.pi / 2, 1e-300])
+        dr = np.rint(dr).astype(adt) if adt.kind == 'i' else dr.astype(adt)
+        dr = U.relayout(dr, case.get('alayout', 'C'))
+        dkeep = dr.copy()
+        ctx.label('ret-array:%s' % adt)
+        atol_ = _tol(1e-13, 32 if adt == np.float32 else prec)
+        Jv = np.asarray(ctx.call(pol.linear_retarder, dr, _arg(t, ht), shape_arg))
+        _unchanged(ctx, dr, dkeep, 'linear', 'the retardance array')
         U.check_shape(Jv, tuple(shape) + (2, 2), 'linear:retardance-array')
         loop = np.empty(tuple(shape) + (2, 2), complex)
         for idx in np.ndindex(*shape):
-            loop[idx] = ctx.call(pol.linear_retarder, float(dr[idx]), t)
-        U.check_close(Jv, loop, 1e-13, 'linear:retardance-array', 'linear_retarder(array %s, %r, shape) vs loop' % (shape, t), atol=1e-14)
-        _check_unitary(ctx, Jv, 'linear:unitary', 'spatially varying linear_retarder')
+            loop[idx] = ctx.call(pol.linear_retarder, float(dkeep[idx]), t)
+        U.check_close(Jv, loop, atol_, 'linear:retardance-array', 'linear_retarder(%s array %s, %r, shape) vs loop' % (adt, shape, t), atol=atol_ * 0.1)
+        _check_unitary(ctx, Jv, 'linear:unitary', 'spatially varying linear_retarder', _tol(1e-12, 32 if adt == np.float32 else prec))
         ta = U.rng_of(case['seed'], 4).uniform(-10, 10, tuple(shape))
-        Rv = np.asarray(ctx.call(pol.jones_rotation_matrix, ta, shape))
+        if 'adtype' in case:
+            ta = _plant(ta, case['seed'], 14, [0.0, math.pi / 2, math.pi, -math.pi / 2, 1e5])
+        ta = np.rint(ta).astype(adt) if adt.kind == 'i' else ta.astype(adt)
+        ta = U.relayout(ta, case.get('alayout', 'C'))
+        tkeep = ta.copy()
+        Rv = np.asarray(ctx.call(pol.jones_rotation_matrix, ta, shape_arg))
+        _unchanged(ctx, ta, tkeep, 'jones_rotation_matrix', 'the theta array')
         U.check_shape(Rv, tuple(shape) + (2, 2), 'jones_rotation_matrix:theta-array')
+        rtol_ = _tol(1e-14, 32 if adt == np.float32 else prec)
         for idx in np.ndindex(*shape):
-            U.check_close(Rv[idx], rot(float(ta[idx])), 1e-14, 'jones_rotation_matrix:theta-array', 'element %s' % (idx,), atol=1e-15)
+            U.check_close(Rv[idx], rot(float(tkeep[idx])), rtol_, 'jones_rotation_matrix:theta-array', 'element %s (theta %r)' % (idx, float(tkeep[idx])), atol=rtol_ * 0.1)
 
 
 # ---- vortex retarder -----------------------------------------------------------------------------
@@ -159,8 +276,10 @@ def strat_vortex(tier):
     mx = 5 if tier == 'quick' else 9
     return st.fixed_dictionaries({
         'charge': st.sampled_from(CHARGES), 'tshape': st.one_of(st.just([]), st.lists(st.integers(1, mx), min_size=1, max_size=3)),
-        'theta_kind': st.sampled_from(['random', 'grid']), 'seed': U.seeds,
-        'ret': st.one_of(ANG, st.just(math.pi), st.just(None)), 'rotate': st.one_of(st.just(0.0), ANG), 'default_rotate': st.booleans()})
+        'theta_kind': st.sampled_from(['random', 'grid', 'special-mix']), 'seed': U.seeds,
+        'ret': st.one_of(ANG, st.just(math.pi), st.just(None)), 'rotate': st.one_of(st.just(0.0), ANG), 'default_rotate': st.booleans(),
+        'tdtype': st.sampled_from(['float64', 'float64', 'float64', 'float32', 'int64']), 'tlayout': U.layouts,
+        'how': st.tuples(HOW, HOW, HOW).map(list), 'kwargs': st.booleans(), 'prec': PREC, 'pre32': st.booleans()})
 
 
 def _vortex_theta(case):
@@ -171,179 +290,346 @@ def _vortex_theta(case):
         x = (np.arange(nx) - nx // 2)[None, :] * 1.0
         t = np.arctan2(y, x) + np.zeros(shp)
         return np.ascontiguousarray(t)
-    return U.rng_of(case['seed'], 5).uniform(-math.pi, math.pi, shp)
+    t = U.rng_of(case['seed'], 5).uniform(-math.pi, math.pi, shp)
+    if case['theta_kind'] == 'special-mix':
+        t = np.asarray(_plant(t, case['seed'], 15, [0.0, math.pi, -math.pi, math.pi / 2, -math.pi / 2, TWO_PI, 1e-300], p=0.5))
+    return t
 
 
 def check_vortex(case, ctx):
     """vector_vortex_retarder: unitary at every retardance, batched == element-wise, rotate = conjugation, theta untouched."""
+    _prec_ctx(case, ctx, _check_vortex)
+
+
+def _check_vortex(case, ctx):
     from prysm.x import polarization as pol
     q, ret, rho = case['charge'], case['ret'], case['rotate']
+    prec = case.get('prec', 64)
+    tdt = np.dtype(case.get('tdtype', 'float64'))
+    hq, hr, hrho = case.get('how', ['py', 'py', 'py'])
     theta = _vortex_theta(case)
+    theta = np.rint(theta).astype(tdt) if tdt.kind == 'i' else theta.astype(tdt)
+    if theta.ndim:      # (a 0-d theta has one layout only)
+        theta = U.relayout(theta, case.get('tlayout', 'C'))
+    else:
+        theta = np.array(theta)
     keep = theta.copy()
+    low = prec == 32 or tdt == np.float32
+    eff = 32 if low else 64
     kw = {}
     if ret is not None:
-        kw['retardance'] = ret
+        kw['retardance'] = _arg(ret, hr)
     if not (case['default_rotate'] and rho == 0.0):
-        kw['rotate'] = rho
+        kw['rotate'] = _arg(rho, hrho)
+    qa = _arg(q, hq)
     r_eff = math.pi if ret is None else ret
     halfwave = abs(math.cos(r_eff / 2)) < 1e-9
     ctx.nt(not halfwave)
     ctx.label('halfwave' if halfwave else 'general-retardance', 'ndim=%d' % theta.ndim, 'half-int' if q != int(q) else 'int-charge',
-              'rotated' if rho != 0 else 'unrotated', 'theta:' + case['theta_kind'])
-    what = 'vector_vortex_retarder(charge=%r, theta%s, %s)' % (q, list(theta.shape), ', '.join('%s=%r' % kv for kv in sorted(kw.items())))
-    V = np.asarray(ctx.call(pol.vector_vortex_retarder, q, theta, **kw))
+              'rotated' if rho != 0 else 'unrotated', 'theta:' + case['theta_kind'], 'tdtype:%s' % tdt, 'tlayout:' + case.get('tlayout', 'C'),
+              'prec:%d' % prec, 'charge-as:' + hq, '|charge|=1' if abs(q) == 1 else '|charge|!=1')
+    what = 'vector_vortex_retarder(charge=%r, theta%s %s, %s) [precision %d]' % (qa, list(theta.shape), tdt, ', '.join('%s=%r' % kv for kv in sorted(kw.items())), prec)
+
+    def vvr(th, kws):
+        if case.get('kwargs', False):
+            return ctx.call(pol.vector_vortex_retarder, charge=qa, theta=th, **kws)
+        return ctx.call(pol.vector_vortex_retarder, qa, th, **kws)
+    V_raw = vvr(theta, kw)
+    V = np.array(V_raw, copy=True)
     U.check_shape(V, theta.shape + (2, 2), 'vector_vortex_retarder', what)
     bucket = 'vector_vortex_retarder:' + ('halfwave' if halfwave else 'retardance!=pi')
-    _check_unitary(ctx, V, bucket + ':unitary', what)
-    ctx.require(np.array_equal(theta, keep), 'vector_vortex_retarder:theta-mutated',
+    # float32 angles: cos / sin of charge * theta are evaluated in float32, the rounding of the product scales with |charge * theta|
+    amp = 1.0 + (abs(q) * float(np.max(np.abs(keep))) if (tdt == np.float32 and keep.size) else 0.0)
+    _check_unitary(ctx, V, bucket + ':unitary', what, _tol(1e-12, eff) * amp)
+    ctx.require(np.array_equal(theta, keep) and theta.dtype == keep.dtype, 'vector_vortex_retarder:theta-mutated',
                 '%s modified the caller\'s theta array in place (max change %.3g)' % (what, float(np.max(np.abs(theta - keep))) if theta.size else 0.0))
     # element by element
-    theta = keep.copy()
     for n, idx in enumerate(np.ndindex(*theta.shape)):
         if n >= 40:
             break
-        one = np.asarray(ctx.call(pol.vector_vortex_retarder, q, np.array(keep[idx]), **kw))
-        U.check_close(V[idx], one, 1e-13, bucket + ':batch-vs-element', '%s element %s' % (what, idx), atol=1e-14)
+        # the element is defined by the value of its angle: built from a float64 0-d array whatever the dtype of the batch
+        one = np.asarray(vvr(np.array(float(keep[idx])) if tdt != np.float64 else np.array(keep[idx]), kw))
+        U.check_close(V[idx], one, _tol(1e-13, eff) * amp, bucket + ':batch-vs-element', '%s element %s' % (what, idx), atol=_tol(1e-14, eff) * amp)
     # rotate == conjugation with the rotation matrix
     kw0 = dict(kw)
     kw0['rotate'] = 0.0
-    V0 = np.asarray(ctx.call(pol.vector_vortex_retarder, q, keep.copy(), **kw0))
-    U.check_close(V, rot(-rho) @ V0 @ rot(rho), 1e-12, bucket + ':rotation-law', what + ' vs R(-rho) V(rotate=0) R(rho)', atol=1e-13)
+    V0 = np.asarray(vvr(keep.copy(), kw0))
+    U.check_close(V, rot(-rho) @ V0 @ rot(rho), _tol(1e-12, eff) * amp, bucket + ':rotation-law', what + ' vs R(-rho) V(rotate=0) R(rho)', atol=_tol(1e-13, eff) * amp)
     if V.size:
-        _check_mueller_orthogonal(ctx, V, bucket + ':mueller', what)
+        _check_mueller_orthogonal(ctx, V, bucket + ':mueller', what, eff if amp == 1.0 else 32)
+    # the first result is the caller's: untouched by the later calls, and not handed out again after the caller edits it
+    U.check_equal(np.asarray(V_raw), V, 'vector_vortex_retarder:result-overwritten', what + ': the first result changed during later calls')
+    np.asarray(V_raw)[...] = 7
+    U.check_close(np.asarray(vvr(theta, kw)), V, 1e-14, 'vector_vortex_retarder:aliased-state', what + ' again, after the previous result was overwritten by the caller', atol=1e-15)
+    ctx.require(np.array_equal(theta, keep), 'vector_vortex_retarder:theta-mutated', '%s modified the caller\'s theta array in place (later call)' % what)
 
 
 # ---- polariser / diattenuator --------------------------------------------------------------------
 def strat_polarizer(tier):
-    return st.fixed_dictionaries({'theta': ANG, 'phi': ANG, 'alpha': st.one_of(U.nice_float(0.0, 1.0), st.sampled_from([0.0, 1.0, 0.5])),
-                                  'shape': SHAPE_OR_NONE})
+    return st.fixed_dictionaries({'theta': ANG, 'phi': ANG, 'alpha': st.one_of(U.nice_float(0.0, 1.0), st.sampled_from([0.0, 1.0, 0.5, 1e-300])),
+                                  'shape': SHAPE_OR_NONE, 'how': st.tuples(HOW, HOW).map(list), 'tuple_shape': st.booleans(), 'kwargs': st.booleans(),
+                                  'prec': PREC, 'pre32': st.booleans()})
 
 
 def check_polarizer(case, ctx):
     """ideal polariser idempotent + Malus' law; diattenuator == R(-t) diag(1, alpha) R(t) and obeys the rotation law."""
+    _prec_ctx(case, ctx, _check_polarizer)
+
+
+def _check_polarizer(case, ctx):
     from prysm.x import polarization as pol
     t, phi, al, shape = case['theta'], case['phi'], case['alpha'], case['shape']
+    ht, ha = case.get('how', ['py', 'py'])
+    prec, usekw = case.get('prec', 64), case.get('kwargs', False)
+    shape_arg = _shape_arg(shape, case.get('tuple_shape', False))
     ctx.nt(_generic(t, phi))
     ctx.label('shape=None' if shape is None else 'shape:%dd' % len(shape), 'alpha=0' if al == 0 else ('alpha=1' if al == 1 else 'alpha-mid'),
-              'generic' if _generic(t, phi) else 'special')
-    Pb = np.asarray(ctx.call(pol.linear_polarizer, t, shape))
+              'generic' if _generic(t, phi) else 'special', 'prec:%d' % prec, 'theta-as:' + ht, 'alpha-as:' + ha)
+    ta, aa = _arg(t, ht), _arg(al, ha)
+    Pb_raw = ctx.call(pol.linear_polarizer, theta=ta, shape=shape_arg) if usekw else ctx.call(pol.linear_polarizer, ta, shape_arg)
+    Pb = np.array(Pb_raw, copy=True)
     P = _check_batch_copies(ctx, Pb, shape, 'linear_polarizer', 'linear_polarizer(%r, shape=%r)' % (t, shape))
-    U.check_close(Pb @ Pb, Pb, 1e-12, 'linear_polarizer:idempotent', 'P(%r)^2 vs P' % t, atol=1e-13)
+    U.check_close(Pb @ Pb, Pb, _tol(1e-12, prec), 'linear_polarizer:idempotent', 'P(%r)^2 vs P' % t, atol=_tol(1e-13, prec))
     e = np.array([math.cos(phi), math.sin(phi)], dtype=complex)
     I = float(np.sum(np.abs(P @ e) ** 2))
-    ctx.require(abs(I - math.cos(t - phi) ** 2) <= 1e-12, 'linear_polarizer:malus',
+    ctx.require(abs(I - math.cos(t - phi) ** 2) <= _tol(1e-12, prec) + 4 * float(np.spacing(abs(t) + abs(phi))), 'linear_polarizer:malus',
                 'polariser at %r rad, linear input at %r rad: transmitted %.17g, cos^2 = %.17g' % (t, phi, I, math.cos(t - phi) ** 2))
     v = np.asarray(ctx.call(pol.linear_pol_vector, math.degrees(phi)))
-    U.check_close(v, e, 1e-12, 'linear_pol_vector', 'linear_pol_vector(%r deg)' % math.degrees(phi), atol=1e-13)
-    I2_ = float(np.sum(np.abs(P @ v) ** 2))
-    ctx.require(abs(I2_ - math.cos(t - phi) ** 2) <= 1e-11, 'linear_polarizer:malus', 'Malus with linear_pol_vector: %.17g vs %.17g' % (I2_, math.cos(t - phi) ** 2))
-    U.check_close(P, rot(-t) @ np.diag([1, 0]) @ rot(t), 1e-12, 'linear_polarizer:closed-form', 'P(%r)' % t, atol=1e-13)
+    U.check_close(v, e, _tol(1e-12, prec), 'linear_pol_vector', 'linear_pol_vector(%r deg)' % math.degrees(phi), atol=_tol(1e-13, prec) + 4 * float(np.spacing(abs(phi))))
+    vr = np.asarray(ctx.call(pol.linear_pol_vector, phi, False))
+    U.check_close(vr, e, _tol(1e-12, prec), 'linear_pol_vector', 'linear_pol_vector(%r, degrees=False)' % phi, atol=_tol(1e-13, prec))
+    I2_ = float(np.sum(np.abs(P @ vr) ** 2))
+    ctx.require(abs(I2_ - math.cos(t - phi) ** 2) <= _tol(1e-11, prec) + 4 * float(np.spacing(abs(t) + abs(phi))), 'linear_polarizer:malus',
+                'Malus with linear_pol_vector: %.17g vs %.17g' % (I2_, math.cos(t - phi) ** 2))
+    U.check_close(P, rot(-t) @ np.diag([1, 0]) @ rot(t), _tol(1e-12, prec), 'linear_polarizer:closed-form', 'P(%r)' % t, atol=_tol(1e-13, prec))
     # diattenuator
-    Db = np.asarray(ctx.call(pol.linear_diattenuator, al, t, shape))
+    Db = np.asarray(ctx.call(pol.linear_diattenuator, alpha=aa, theta=ta, shape=shape_arg) if usekw else ctx.call(pol.linear_diattenuator, aa, ta, shape_arg))
     D = _check_batch_copies(ctx, Db, shape, 'linear_diattenuator', 'linear_diattenuator(%r, %r, shape=%r)' % (al, t, shape))
-    U.check_close(D, rot(-t) @ np.diag([1, al]) @ rot(t), 1e-12, 'linear_diattenuator:closed-form', 'D(%r, %r)' % (al, t), atol=1e-13)
+    U.check_close(D, rot(-t) @ np.diag([1, al]) @ rot(t), _tol(1e-12, prec), 'linear_diattenuator:closed-form', 'D(%r, %r)' % (al, t), atol=_tol(1e-13, prec))
     D0 = np.asarray(ctx.call(pol.linear_diattenuator, al, 0))
     R1 = np.asarray(ctx.call(pol.jones_rotation_matrix, t))
     Rm = np.asarray(ctx.call(pol.jones_rotation_matrix, -t))
-    U.check_close(D, Rm @ D0 @ R1, 1e-12, 'linear_diattenuator:rotation-law', 'D(%r, %r) vs R(-t) D(0) R(t)' % (al, t), atol=1e-13)
+    U.check_close(D, Rm @ D0 @ R1, _tol(1e-12, prec), 'linear_diattenuator:rotation-law', 'D(%r, %r) vs R(-t) D(0) R(t)' % (al, t), atol=_tol(1e-13, prec))
     if al == 0:
-        U.check_close(D, P, 1e-14, 'linear_polarizer:is-diattenuator(0)', 'polariser vs diattenuator(0)', atol=1e-15)
+        U.check_close(D, P, _tol(1e-14, prec), 'linear_polarizer:is-diattenuator(0)', 'polariser vs diattenuator(0)', atol=_tol(1e-15, prec))
+    if shape is not None:
+        ctx.require(list(shape_arg) == list(shape), 'linear_polarizer:argument-modified', 'the shape= sequence was modified: %r' % (shape_arg,))
+    # the polariser built first still is what it was, and is not handed out again once the caller has edited it
+    U.check_equal(np.asarray(Pb_raw), Pb, 'linear_polarizer:result-overwritten', 'linear_polarizer(%r, shape=%r): the result changed while other elements were built' % (t, shape))
+    np.asarray(Pb_raw)[...] = 7
+    again = np.asarray(ctx.call(pol.linear_polarizer, ta, shape_arg))
+    U.check_close(again, Pb, 1e-14, 'linear_polarizer:aliased-state', 'linear_polarizer(%r, shape=%r) again, after the previous result was overwritten by the caller' % (t, shape), atol=1e-15)
 
 
 # ---- Jones -> Mueller ----------------------------------------------------------------------------
+JDT = ['complex128', 'complex128', 'complex128', 'complex64', 'float64', 'int64']
+MSCALE = [[0, 0]] * 6 + [[100, -100], [70, 70], [-70, -70], [150, -150], [-150, 0], [0, 150], [-150, 150]]
+
+
 def strat_mueller(tier):
-    return st.fixed_dictionaries({'bshape': BSHAPE, 'seed': U.seeds, 'kind': st.sampled_from(['random', 'random', 'unitary', 'elements'])})
+    return st.fixed_dictionaries({'bshape': BSHAPE, 'seed': U.seeds, 'kind': st.sampled_from(['random', 'random', 'unitary', 'elements', 'special-mix']),
+                                  'jdtype': st.sampled_from(JDT), 'layout': U.layouts, 'scale': st.sampled_from(MSCALE), 'pre32': st.booleans()})
+
+
+_PLANT = [np.eye(2), np.zeros((2, 2)), np.array([[1, 0], [0, 0]]), np.array([[0, 1], [1, 0]]), np.array([[0, -1j], [1j, 0]]),
+          np.array([[1, 1], [1, 1]]) / 2, np.array([[1, 0], [0, -1]]), np.array([[0, 1], [0, 0]])]
+
+
+def _plant_matrices(J, seed, salt, cplx_ok):
+    """special Jones matrices (identity, zero, projectors, Pauli matrices, nilpotent) among the generic ones"""
+    B = J.shape[:-2]
+    r = U.rng_of(seed, salt)
+    for idx in np.ndindex(*B):
+        if r.uniform() < 0.4:
+            m = _PLANT[int(r.integers(0, len(_PLANT)))]
+            if np.iscomplexobj(m) and not cplx_ok:
+                m = _PLANT[0]
+            J[idx] = m
+    return J
+
+
+def _jones_batch(seed, B, salt, kind, jdt, e):
+    """a batch of Jones matrices of dtype jdt and amplitude 10**e (integers stay integers)"""
+    jdt = np.dtype(jdt)
+    if kind == 'unitary' and jdt.kind == 'c':
+        J = unitary(seed, B, salt)
+    else:
+        J = cplx(seed, B + (2, 2), salt)
+    if jdt.kind != 'c':
+        J = J.real.copy()
+    if kind == 'special-mix':
+        J = _plant_matrices(J, seed, salt + 5, jdt.kind == 'c')
+    if jdt.kind == 'i':
+        return np.rint(J * 3).astype(jdt)
+    if jdt == np.complex64:
+        e = int(round(e / 10))
+    return (J * 10.0 ** e).astype(jdt)
 
 
 def check_mueller(case, ctx):
     """M(J1 J2) == M(J1) M(J2); unitary -> orthogonal, M00 = 1; definition up to handedness; batch == loop; broadcast_kron == kron."""
+    _prec_ctx(dict(case, prec=64), ctx, _check_mueller)
+
+
+def _check_mueller(case, ctx):
     from prysm.x import polarization as pol
     B, seed, kind = tuple(case['bshape']), case['seed'], case['kind']
-    ctx.nt(True)
-    ctx.label('ndim=%d' % len(B), 'kind:' + kind, 'size>1' if int(np.prod(B)) > 1 else 'size1')
+    jdt = np.dtype(case.get('jdtype', 'complex128'))
+    e1, e2 = case.get('scale', [0, 0])
+    lay = case.get('layout', 'C')
+    low = jdt == np.complex64
     if kind == 'unitary':
-        J1, J2 = unitary(seed, B, 10), unitary(seed, B, 20)
-    elif kind == 'elements':
+        e1 = e2 = 0
+    if kind == 'elements':
+        e1 = e2 = 0
+        if not low:
+            jdt = np.dtype('complex128')
+    if kind == 'unitary' and jdt.kind != 'c':
+        jdt = np.dtype('complex128')
+    ctx.nt(True)
+    ctx.label('ndim=%d' % len(B), 'kind:' + kind, 'size>1' if int(np.prod(B)) > 1 else 'size1', 'jdtype:%s' % jdt, 'layout:' + lay,
+              'scale:%s' % ('unit' if (e1, e2) == (0, 0) else 'extreme'))
+    if kind == 'elements':
+        if not low:
+            jdt = np.dtype('complex128')
         r = U.rng_of(seed, 30)
         J1 = np.empty(B + (2, 2), complex)
         J2 = np.empty(B + (2, 2), complex)
         for idx in np.ndindex(*B):
             J1[idx] = ctx.call(pol.linear_retarder, float(r.uniform(-7, 7)), float(r.uniform(-7, 7)))
             J2[idx] = ctx.call(pol.linear_diattenuator, float(r.uniform(0, 1)), float(r.uniform(-7, 7)))
+        if low:
+            J1, J2 = J1.astype(jdt), J2.astype(jdt)
+    elif 'jdtype' in case:
+        J1, J2 = _jones_batch(seed, B, 10, kind, jdt, e1), _jones_batch(seed, B, 20, kind, jdt, e2)
+    elif kind == 'unitary':
+        J1, J2 = unitary(seed, B, 10), unitary(seed, B, 20)
     else:
         J1, J2 = cplx(seed, B + (2, 2), 10), cplx(seed, B + (2, 2), 20)
-    M1 = np.asarray(ctx.call(pol.jones_to_mueller, J1))
+    J1, J2 = U.relayout(J1, lay), U.relayout(J2, lay)
+    k1, k2 = J1.copy(), J2.copy()
+    W1, W2 = J1.astype(np.complex128), J2.astype(np.complex128)     # the same numbers in the harness' working precision
+    J12 = W1 @ W2
+    s1 = float(np.max(np.abs(W1))) if W1.size else 0.0
+    s2 = float(np.max(np.abs(W2))) if W2.size else 0.0
+    S1, S2, S12 = s1 ** 2, s2 ** 2, (s1 * s2) ** 2     # magnitudes of the Mueller matrices
+    rt = F32TOL if low else 1e-12
+    M1_raw = ctx.call(pol.jones_to_mueller, J1)
+    M1 = np.array(M1_raw, copy=True)
+    M1_keep = M1.copy()
     M2 = np.asarray(ctx.call(pol.jones_to_mueller, J2))
-    M12 = np.asarray(ctx.call(pol.jones_to_mueller, J1 @ J2))
+    M12 = np.asarray(ctx.call(pol.jones_to_mueller, J12))
+    _unchanged(ctx, J1, k1, 'jones_to_mueller', 'the Jones batch J1')
+    _unchanged(ctx, J2, k2, 'jones_to_mueller', 'the Jones batch J2')
     for M in (M1, M2, M12):
         U.check_shape(M, B + (4, 4), 'jones_to_mueller')
         ctx.require(M.dtype.kind == 'f', 'jones_to_mueller:dtype', 'Mueller matrix dtype %s is not real' % M.dtype)
-    U.check_close(M12, M1 @ M2, 1e-12, 'jones_to_mueller:multiplicative', 'M(J1 J2) vs M(J1) M(J2), batch %s' % (B,), atol=1e-13)
+    M1, M2, M12 = M1.astype(np.float64), M2.astype(np.float64), M12.astype(np.float64)
+    U.check_close(M12, M1 @ M2, rt, 'jones_to_mueller:multiplicative', 'M(J1 J2) vs M(J1) M(J2), batch %s dtype %s amplitudes %.3g, %.3g' % (B, jdt, s1, s2), atol=rt * S12)
     hands = set()
     for n, idx in enumerate(np.ndindex(*B)):
         if n >= 24:
             break
-        one = np.asarray(ctx.call(pol.jones_to_mueller, J1[idx]))
-        U.check_close(M1[idx], one, 1e-13, 'jones_to_mueller:batch-vs-element', 'element %s of batch %s' % (idx, B), atol=1e-14)
-        nb = np.asarray(ctx.call(pol.jones_to_mueller, J1[idx], False))
-        U.check_close(nb, one, 1e-13, 'jones_to_mueller:broadcast-flag', 'broadcast=False vs True', atol=1e-14)
-        ea, eb = U.relerr(one, mueller_ref(J1[idx], 1)), U.relerr(one, mueller_ref(J1[idx], -1))
-        ctx.require(min(ea, eb) <= 1e-12, 'jones_to_mueller:definition',
-                    'M differs from tr(s_i J s_j J^H)/2 in both handedness conventions (rel err %.3g / %.3g) for J=%r' % (ea, eb, J1[idx].tolist()))
-        if abs(ea - eb) > 1e-9:
-            hands.add(1 if ea < eb else -1)
-        m00 = 0.5 * float(np.sum(np.abs(J1[idx]) ** 2))
-        ctx.require(abs(one[0, 0] - m00) <= 1e-12 * max(1, m00), 'jones_to_mueller:M00', 'M00=%r, sum|J|^2/2=%r' % (one[0, 0], m00))
+        one = np.asarray(ctx.call(pol.jones_to_mueller, J1[idx])).astype(np.float64)
+        U.check_close(M1[idx], one, rt * 0.1, 'jones_to_mueller:batch-vs-element', 'element %s of batch %s' % (idx, B), atol=rt * 0.1 * S1)
+        nb = np.asarray(ctx.call(pol.jones_to_mueller, J1[idx], False)).astype(np.float64)
+        U.check_close(nb, one, rt * 0.1, 'jones_to_mueller:broadcast-flag', 'broadcast=False vs True', atol=rt * 0.1 * S1)
+        m00 = 0.5 * float(np.sum(np.abs(W1[idx]) ** 2))
+        if m00 > 0:
+            ea, eb = U.relerr(one, mueller_ref(W1[idx], 1)), U.relerr(one, mueller_ref(W1[idx], -1))
+            ctx.require(min(ea, eb) <= rt, 'jones_to_mueller:definition',
+                        'M differs from tr(s_i J s_j J^H)/2 in both handedness conventions (rel err %.3g / %.3g) for J=%r' % (ea, eb, W1[idx].tolist()))
+            if abs(ea - eb) > 1e3 * rt:
+                hands.add(1 if ea < eb else -1)
+        else:
+            ctx.require(not np.any(one), 'jones_to_mueller:definition', 'Mueller matrix of the zero Jones matrix is %r' % one.tolist())
+        tol00 = rt * max(1, m00) if (e1, e2) == (0, 0) or 'scale' not in case else rt * m00
+        ctx.require(abs(one[0, 0] - m00) <= tol00, 'jones_to_mueller:M00', 'M00=%r, sum|J|^2/2=%r' % (one[0, 0], m00))
     ctx.require(len(hands) <= 1, 'jones_to_mueller:definition', 'handedness convention differs between elements of one batch')
-    if kind == 'unitary':
+    if kind == 'unitary' and jdt.kind == 'c':
         for J, M in ((J1, M1), (J2, M2)):
             e = M @ np.swapaxes(M, -1, -2)
-            U.check_close(e, np.broadcast_to(I4, e.shape), 1e-11, 'jones_to_mueller:orthogonal', 'M M^T for unitary J, batch %s' % (B,))
-            U.check_close(M[..., 0, 0], np.ones(B), 1e-12, 'jones_to_mueller:orthogonal:M00', 'M00 for unitary J')
+            U.check_close(e, np.broadcast_to(I4, e.shape), _tol(1e-11, 32 if low else 64), 'jones_to_mueller:orthogonal', 'M M^T for unitary J, batch %s' % (B,))
+            U.check_close(M[..., 0, 0], np.ones(B), _tol(1e-12, 32 if low else 64), 'jones_to_mueller:orthogonal:M00', 'M00 for unitary J')
     # broadcast_kron
     K = np.asarray(ctx.call(pol.broadcast_kron, J1, J2))
     U.check_shape(K, B + (4, 4), 'broadcast_kron')
     for n, idx in enumerate(np.ndindex(*B)):
         if n >= 24:
             break
-        U.check_close(K[idx], np.kron(J1[idx], J2[idx]), 1e-13, 'broadcast_kron', 'element %s of batch %s vs numpy.kron' % (idx, B), atol=1e-15)
+        U.check_close(K[idx], np.kron(W1[idx], W2[idx]), rt * 0.1, 'broadcast_kron', 'element %s of batch %s vs numpy.kron' % (idx, B), atol=1e-15 * s1 * s2)
+    _unchanged(ctx, J1, k1, 'broadcast_kron', 'the Jones batch J1')
+    _unchanged(ctx, J2, k2, 'broadcast_kron', 'the Jones batch J2')
+    # the first Mueller batch belongs to the caller
+    U.check_equal(np.asarray(M1_raw), M1_keep, 'jones_to_mueller:result-overwritten', 'M(J1) changed during later conversions')
 
 
 # ---- Pauli ---------------------------------------------------------------------------------------
+PSCALE = [0, 0, 0, 0, -300, 300, -150, 150, -17]
+
+
 def strat_pauli(tier):
-    return st.fixed_dictionaries({'bshape': BSHAPE, 'seed': U.seeds, 'shape': SHAPE_OR_NONE})
+    return st.fixed_dictionaries({'bshape': BSHAPE, 'seed': U.seeds, 'shape': SHAPE_OR_NONE, 'jdtype': st.sampled_from(JDT), 'layout': U.layouts,
+                                  'scale': st.sampled_from(PSCALE), 'kind': st.sampled_from(['random', 'random', 'special-mix']),
+                                  'tuple_shape': st.booleans(), 'np_index': st.booleans(), 'prec': PREC, 'pre32': st.booleans()})
 
 
 def check_pauli(case, ctx):
     """sum_k c_k sigma_k == J for batches; pauli_spin_matrix == the Pauli matrices (with shape=); c_k == tr(sigma_k J)/2."""
+    _prec_ctx(case, ctx, _check_pauli)
+
+
+def _check_pauli(case, ctx):
     from prysm.x import polarization as pol
     B, seed, shape = tuple(case['bshape']), case['seed'], case['shape']
+    jdt, lay, e = np.dtype(case.get('jdtype', 'complex128')), case.get('layout', 'C'), case.get('scale', 0)
+    shape_arg = _shape_arg(shape, case.get('tuple_shape', False))
     ctx.nt(True)
-    ctx.label('ndim=%d' % len(B), 'shape=None' if shape is None else 'shape:%dd' % len(shape))
-    J = cplx(seed, B + (2, 2), 40)
+    ctx.label('ndim=%d' % len(B), 'shape=None' if shape is None else 'shape:%dd' % len(shape), 'jdtype:%s' % jdt, 'layout:' + lay,
+              'scale:%s' % ('unit' if e == 0 else 'extreme'), 'prec:%d' % case.get('prec', 64))
+    if 'jdtype' in case:
+        J = U.relayout(_jones_batch(seed, B, 40, case.get('kind', 'random'), jdt, e), lay)
+    else:
+        J = cplx(seed, B + (2, 2), 40)
+    keep = J.copy()
+    W = J.astype(np.complex128)
+    sc = float(np.max(np.abs(W))) if W.size else 0.0
+    rt = 1e-5 if jdt == np.complex64 else 1e-14
     c = ctx.call(pol.pauli_coefficients, J)
+    _unchanged(ctx, J, keep, 'pauli_coefficients', 'the Jones batch')
     ctx.require(len(c) == 4, 'pauli_coefficients:len', 'expected 4 coefficients, got %d' % len(c))
     S = []
     for k in range(4):
-        sk = np.asarray(ctx.call(pol.pauli_spin_matrix, k, shape))
+        kk = np.int64(k) if case.get('np_index', False) else k
+        sk_raw = ctx.call(pol.pauli_spin_matrix, kk, shape_arg)
+        sk = np.array(sk_raw, copy=True)
         s1 = _check_batch_copies(ctx, sk, shape, 'pauli_spin_matrix', 'pauli_spin_matrix(%d, shape=%r)' % (k, shape))
         U.check_equal(s1, SIG[k], 'pauli_spin_matrix:%d' % k, 'pauli_spin_matrix(%d)' % k)
-        S.append(s1)
+        S.append(s1.astype(np.complex128))
+        # a Pauli matrix handed out earlier and edited by the caller must not come back
+        np.asarray(sk_raw)[...] = 7
+        again = np.asarray(ctx.call(pol.pauli_spin_matrix, kk, shape_arg))
+        U.check_equal(again, sk, 'pauli_spin_matrix:aliased-state', 'pauli_spin_matrix(%d, shape=%r) again, after the previous result was overwritten by the caller' % (k, shape))
+    if shape is not None:
+        ctx.require(list(shape_arg) == list(shape), 'pauli_spin_matrix:argument-modified', 'the shape= sequence was modified: %r' % (shape_arg,))
     rec = np.zeros(B + (2, 2), complex)
     rec_lib = np.zeros(B + (2, 2), complex)
     for k in range(4):
         ck = np.asarray(c[k])
         U.check_shape(ck, B, 'pauli_coefficients', 'c%d' % k)
-        want = 0.5 * np.trace(SIG[k] @ J, axis1=-2, axis2=-1)
-        U.check_close(ck, want, 1e-14, 'pauli_coefficients:c%d' % k, 'c%d vs tr(sigma_%d J)/2, batch %s' % (k, k, B), atol=1e-15)
+        ck = ck.astype(np.complex128)
+        want = 0.5 * np.trace(SIG[k] @ W, axis1=-2, axis2=-1)
+        U.check_close(ck, want, rt, 'pauli_coefficients:c%d' % k, 'c%d vs tr(sigma_%d J)/2, batch %s dtype %s amplitude %.3g' % (k, k, B, jdt, sc), atol=rt * 0.1 * sc)
         rec = rec + ck[..., None, None] * SIG[k]
         rec_lib = rec_lib + ck[..., None, None] * S[k]
-    U.check_close(rec, J, 1e-14, 'pauli:reconstruct', 'sum c_k sigma_k vs J, batch %s' % (B,), atol=1e-15)
-    U.check_close(rec_lib, J, 1e-14, 'pauli:reconstruct', 'sum c_k pauli_spin_matrix(k) vs J, batch %s' % (B,), atol=1e-15)
+    U.check_close(rec, W, rt, 'pauli:reconstruct', 'sum c_k sigma_k vs J, batch %s dtype %s amplitude %.3g' % (B, jdt, sc), atol=rt * 0.1 * sc)
+    U.check_close(rec_lib, W, rt, 'pauli:reconstruct', 'sum c_k pauli_spin_matrix(k) vs J, batch %s' % (B,), atol=rt * 0.1 * sc)
+    _unchanged(ctx, J, keep, 'pauli_coefficients', 'the Jones batch')
 
 
 # ---- polarised propagation -----------------------------------------------------------------------
 FUNCS = ['focus', 'unfocus', 'focus_fixed_sampling', 'unfocus_fixed_sampling', 'angular_spectrum']
+SHIFTS = [None, None, [0.0, 0.0], [0.3, -0.7], [1.5, 0.0], [0.0, -2.2], [0.4, 0.4]]
 
 
 def strat_prop(tier):
@@ -353,7 +639,26 @@ def strat_prop(tier):
         'func': st.sampled_from(FUNCS), 'shape': st.one_of(st.tuples(ax, ax).map(list), st.tuples(ax, ax).map(list), ax.map(lambda n: [n, n])), 'seed': U.seeds,
         'Q': st.sampled_from([1, 2, 3, 1.5, 2.5]), 'out': st.one_of(st.integers(2, mx), st.tuples(st.integers(2, mx), st.integers(2, mx)).map(list)),
         'method': st.sampled_from(['mdft', 'czt']), 'kwargs': st.booleans(), 'dx': st.sampled_from([0.1, 0.25, 1.0]),
-        'z': st.sampled_from([0.0, 1.0, 25.0, -3.0])})
+        'z': st.sampled_from([0.0, 1.0, 25.0, -3.0]),
+        'edtype': st.sampled_from(['complex128', 'complex128', 'complex128', 'complex64', 'float64']),
+        'elayout': st.sampled_from(['jones-last', 'jones-last', 'components-first', 'F', 'strided']),
+        'shift': st.sampled_from(SHIFTS), 'tf': st.booleans(), 'escale': st.sampled_from([0, 0, 0, -150, 150, -300])})
+
+
+def _field(seed, shape, salt, edt, lay, e):
+    """a polarised field (*shape, 2, 2) of the drawn dtype / memory layout / amplitude"""
+    edt = np.dtype(edt)
+    E = cplx(seed, shape + (2, 2), salt)
+    if edt.kind == 'f':
+        E = E.real.copy()
+    if edt == np.complex64:
+        e = int(round(e / 10))
+    E = (E * 10.0 ** e).astype(edt)
+    if lay == 'components-first':
+        return np.moveaxis(np.ascontiguousarray(np.moveaxis(E, (-2, -1), (0, 1))), (0, 1), (-2, -1))   # each component contiguous
+    if lay in ('F', 'strided'):
+        return U.relayout(E, lay)
+    return np.ascontiguousarray(E)
 
 
 def check_prop(case, ctx):
@@ -361,13 +666,17 @@ def check_prop(case, ctx):
     from prysm.x import polarization as pol
     from prysm import propagation as P
     name, shape, seed = case['func'], tuple(case['shape']), case['seed']
+    edt, lay, esc = np.dtype(case.get('edtype', 'complex128')), case.get('elayout', 'jones-last'), case.get('escale', 0)
     ctx.require(sorted(pol.supported_propagation_funcs) == sorted(FUNCS), 'supported_propagation_funcs',
                 'list changed: %r' % (pol.supported_propagation_funcs,))
     f = getattr(P, name)
     assert not hasattr(f, '__wrapped__'), 'prysm.propagation.%s is already wrapped (global monkey-patch leaked into the harness)' % name
     g = ctx.call(pol.jones_adapter, f)
-    E = cplx(seed, shape + (2, 2), 50)
+    E = _field(seed, shape, 50, edt, lay, esc)
+    Ekeep = E.copy()
     out = U.tup(case['out'])
+    shift = case.get('shift')
+    extra_arrays = []
     if name in ('focus', 'unfocus'):
         a, k = ((), {'Q': case['Q']}) if case['kwargs'] else ((case['Q'],), {})
     elif name in ('focus_fixed_sampling', 'unfocus_fixed_sampling'):
@@ -377,38 +686,69 @@ def check_prop(case, ctx):
             k['method'] = case['method']
         else:
             a, k = base, {'method': case['method']}
+        if shift is not None:
+            k['shift'] = tuple(shift)     # (sx, sy), in general sx != sy
     else:
         a, k = (0.5, case['dx'], case['z']), {'Q': case['Q'] if case['Q'] in (1, 2, 3) else 2}
+        if case.get('tf', False):
+            tfa = cplx(seed, shape, 70)   # a transfer function without any symmetry; "clobbers all other arguments"
+            k['tf'] = tfa
+            extra_arrays.append((tfa, tfa.copy(), 'the tf= array'))
+    low = edt == np.complex64
+    rt = 1e-4 if low else 1e-13
     ctx.nt(shape[0] != shape[1] or shape[0] % 2 == 1)
-    ctx.label('func:' + name, 'square' if shape[0] == shape[1] else 'nonsquare', 'kwargs' if case['kwargs'] else 'positional')
-    what = 'jones_adapter(%s)(E%s, *%r, **%r)' % (name, list(E.shape), a, k)
-    got = np.asarray(ctx.call(g, E, *a, **k))
-    comp = [[np.asarray(ctx.call(f, np.ascontiguousarray(E[..., i, j]), *a, **k)) for j in range(2)] for i in range(2)]
+    ctx.label('func:' + name, 'square' if shape[0] == shape[1] else 'nonsquare', 'kwargs' if case['kwargs'] else 'positional', 'edtype:%s' % edt,
+              'elayout:' + lay, 'shift:' + ('none' if 'shift' not in k else ('asymmetric' if k['shift'][0] != k['shift'][1] else 'symmetric')),
+              'tf' if 'tf' in k else 'no-tf', 'escale:%s' % ('unit' if esc == 0 else 'extreme'))
+    what = 'jones_adapter(%s)(E%s %s %s, *%r, **%r)' % (name, list(E.shape), edt, lay, a, {kk: (vv if kk != 'tf' else '<array>') for kk, vv in k.items()})
+    got_raw = ctx.call(g, E, *a, **k)
+    got = np.asarray(got_raw)
+    comp = [[np.asarray(ctx.call(f, np.ascontiguousarray(Ekeep[..., i, j]), *a, **k)) for j in range(2)] for i in range(2)]
     U.check_shape(got, comp[0][0].shape + (2, 2), 'jones_adapter:' + name, what)
+    sc = max(float(np.max(np.abs(c_))) for row in comp for c_ in row)
     for i in range(2):
         for j in range(2):
-            U.check_close(got[..., i, j], comp[i][j], 1e-13, 'jones_adapter:%s:component' % name, '%s component [%d,%d] vs direct propagation' % (what, i, j))
+            U.check_close(got[..., i, j], comp[i][j], rt, 'jones_adapter:%s:component' % name, '%s component [%d,%d] vs direct propagation' % (what, i, j), atol=rt * sc)
     ctx.require(np.iscomplexobj(got), 'jones_adapter:%s:dtype' % name, 'output dtype %s' % got.dtype)
+    _unchanged(ctx, E, Ekeep, 'jones_adapter:' + name, 'the polarised field')
+    for arr, kp, nm in extra_arrays:
+        _unchanged(ctx, arr, kp, 'jones_adapter:' + name, nm)
     # scalar (2-D) input passes through
-    s = np.ascontiguousarray(E[..., 0, 1])
-    U.check_close(np.asarray(ctx.call(g, s, *a, **k)), comp[0][1], 1e-13, 'jones_adapter:%s:passthrough' % name, '2-D input through the adapter')
+    s = np.ascontiguousarray(Ekeep[..., 0, 1])
+    U.check_close(np.asarray(ctx.call(g, s, *a, **k)), comp[0][1], rt, 'jones_adapter:%s:passthrough' % name, '2-D input through the adapter', atol=rt * sc)
     ctx.require(getattr(P, name) is f, 'jones_adapter:global-side-effect', 'jones_adapter replaced prysm.propagation.%s' % name)
     # a second polarised propagation (other field, same shapes) must leave the first result untouched: the caller owns it
     keep = got.copy()
-    E2 = cplx(seed, shape + (2, 2), 51)
+    E2 = _field(seed, shape, 51, edt, 'jones-last', esc)
     got2 = np.asarray(ctx.call(g, E2, *a, **k))
-    U.check_equal(got, keep, 'jones_adapter:%s:result-overwritten-by-later-call' % name, 'first result changed after a second call of the same wrapped routine')
+    U.check_equal(np.asarray(got_raw), keep, 'jones_adapter:%s:result-overwritten-by-later-call' % name, 'first result changed after a second call of the same wrapped routine')
     for i in range(2):
         for j in range(2):
-            U.check_close(got2[..., i, j], np.asarray(ctx.call(f, np.ascontiguousarray(E2[..., i, j]), *a, **k)), 1e-13,
-                          'jones_adapter:%s:component' % name, 'second call, component [%d,%d]' % (i, j))
+            U.check_close(got2[..., i, j], np.asarray(ctx.call(f, np.ascontiguousarray(E2[..., i, j]), *a, **k)), rt,
+                          'jones_adapter:%s:component' % name, 'second call, component [%d,%d]' % (i, j), atol=rt * sc)
+    # ... and a third one through a *fresh* adapter of the same routine with other parameters (state shared between adapters)
+    g3 = ctx.call(pol.jones_adapter, f)
+    if name in ('focus', 'unfocus'):
+        ctx.call(g3, E2, 1 if case['Q'] != 1 else 2)
+    elif name == 'angular_spectrum':
+        ctx.call(g3, E2, 0.6, case['dx'], 2.0, Q=1)
+    else:
+        ctx.call(g3, E2, case['dx'], 10.0, 0.5, 0.2, out, shift=(0.25, -0.5))
+    U.check_equal(np.asarray(got_raw), keep, 'jones_adapter:%s:result-overwritten-by-later-call' % name, 'first result changed after a call through a second adapter')
+    again = np.asarray(ctx.call(g, E, *a, **k))
+    U.check_close(again, keep, rt, 'jones_adapter:%s:history' % name, '%s again, after calls with other parameters' % what, atol=rt * sc)
     # applying a spatially varying optic to a scalar field is the element-wise product
     A = cplx(seed, shape, 60)
+    if edt.kind == 'f':
+        A = A.real.copy()
+    Akeep = A.copy()
     JA = np.asarray(ctx.call(pol.apply_polarization_optic, A, E))
     U.check_shape(JA, shape + (2, 2), 'apply_polarization_optic')
     for i in range(2):
         for j in range(2):
-            U.check_close(JA[..., i, j], A * E[..., i, j], 1e-13, 'apply_polarization_optic', 'component [%d,%d]' % (i, j))
+            U.check_close(JA[..., i, j], A * Ekeep[..., i, j], 1e-6 if low else 1e-13, 'apply_polarization_optic', 'component [%d,%d]' % (i, j))
+    _unchanged(ctx, A, Akeep, 'apply_polarization_optic', 'the scalar field')
+    _unchanged(ctx, E, Ekeep, 'apply_polarization_optic', 'the Jones optic')
 
 
 CLAUSES = [
